@@ -811,6 +811,54 @@ def rule_order(ctx):
     return r
 
 
+def rule_nodekey(ctx):
+    """Nodes of the documentation tree are identified by `tuple(str(part) for part in <path>)`.
+    The string of a *part* is injective on parts (it is the part's repr); the string of a
+    *simplified* part is not (the key 1 and the key '1' both give '1'), so an identity built from
+    `.simplify()` merges distinct nodes."""
+    prog = ctx.prog
+    r = RuleResult("R-NODEKEY", floor=1)
+    from ..anchors import tree_builder
+    from .astutil import local_alias_map
+    f = tree_builder(prog)
+    amap = local_alias_map(f)
+    # the node table: the dict whose subscripts are assigned `{...}` / tested with `in`
+    tables = {}
+    for n in ast.walk(f.node):
+        if isinstance(n, ast.Subscript) and isinstance(n.value, ast.Name) and isinstance(n.slice, ast.Name):
+            tables.setdefault(n.value.id, set()).add(n.slice.id)
+    table = max(tables, key=lambda k: len(tables[k]), default=None)
+    keys = tables.get(table, set())
+    for n in ast.walk(f.node):
+        if not (isinstance(n, ast.Assign) and len(n.targets) == 1 and isinstance(n.targets[0], ast.Name) and n.targets[0].id in keys):
+            continue
+        v = n.value
+        if not (isinstance(v, ast.Call) and norm(v.func) == "tuple" and len(v.args) == 1 and isinstance(v.args[0], ast.GeneratorExp)):
+            continue
+        g = v.args[0]
+        src = g.generators[0].iter
+        seen = set()
+        while isinstance(src, ast.Name) and src.id in amap and src.id not in seen:
+            seen.add(src.id)
+            src = amap[src.id]
+        inst = {"node identity": norm(n)[:100], "built from": norm(src)[:80]}
+        r.instances.append(inst)
+        lossy = any(isinstance(x, ast.Call) and isinstance(x.func, ast.Attribute) and x.func.attr == "simplify" for x in ast.walk(src))
+        str_elt = isinstance(g.elt, ast.Call) and norm(g.elt.func) in ("str", "repr")
+        if lossy and str_elt:
+            r.fail(Finding("R-NODEKEY", f"R-NODEKEY|{f.qualname}|{n.targets[0].id}", f"{f.file}:{n.lineno}",
+                           f"`{norm(n)[:100]}`: the node identity is built from the simplified path; the strings of simplified parts are not injective "
+                           f"(the keys 1 and '1' both give '1'), so rules for different nodes are merged into one documentation node", []))
+        elif str_elt:
+            r.ok()
+        else:
+            r.undecided.append(inst)
+    if not r.instances:
+        r.instances.append({"node identity": "no `tuple(str(..) for ..)` key found"})
+        r.undecided.append({"what": "node identity keys not in the recognised form"})
+    return r
+
+
 def _par(n):
     p = n
     while hasattr(p, "_parent"):
